@@ -16,6 +16,7 @@
   * at_most_one_end_or_error, exactly_one_end_or_error, connect_failure_fires_error
   * nothing_relayed_after_end
   * ignore_mode_fires_no_end_or_error_hook
+  * messages_handled_in_arrival_order, handled_is_prefix_of_arrivals: the pause queue never reorders
   * round 3: `Input.hookKill` (flow.kill() inside any hook) is part of every schedule; *_any_sockets variants hold when
     write_eof raises OSError (initX); kill_in_message_hook_still_relays, kill_is_plain_completion
 -/
@@ -380,6 +381,41 @@ example : (run (init .tcp true true) [.start, .hookKill, .data .client [1], .hoo
 /-- dead server socket: the half-close towards the server leaves it CLOSED, so the end needs no second close of it -/
 example : (run (initX .tcp true true false true) [.start, .hookDone none, .closed .client false, .closed .server true]).trace =
     [.hook .start, .close .server true, .close .client false, .hook .end_] := by decide
+
+/-! ### arrival order (the replay of events buffered while a hook is pending keeps their order) -/
+
+/-- **Messages are handled in arrival order.**  `accepted true/false ins` is the list of data and injected messages
+    the schedule delivers after `Start`, in delivery order (both directions interleaved).  While the relay runs, the
+    message hooks fired so far (with the content the peer sent), followed by the data events still waiting in the pause
+    queue, are EXACTLY that list — for every interleaving of the two directions, hook completions, kills and closes. -/
+theorem messages_handled_in_arrival_order (p : Proto) (c : Bool) (ins : List Input)
+    (hrun : (run (init p true c) ins).phase = .start ∨ (run (init p true c) ins).phase = .relay) :
+    hookMsgs (run (init p true c) ins).trace ++ dataOf (run (init p true c) ins).queue = accepted false ins := by
+  have h := arr_run (init p true c) ins [] rfl (full_init p true c) (arr_init p c)
+  rw [List.nil_append, arrivals_eq_accepted] at h
+  have e : decide ((init p true c).phase ≠ Phase.idle) = false := by simp [init]
+  rw [e] at h
+  rcases hrun with hs | hr
+  · exact h.2.1 hs
+  · exact h.2.2.1 hr
+
+/-- once the relay has ended, what was handled is a prefix of what arrived (later arrivals are dropped, never reordered) -/
+theorem handled_is_prefix_of_arrivals (p : Proto) (c : Bool) (ins : List Input) :
+    ∃ rest, hookMsgs (run (init p true c) ins).trace ++ rest = accepted false ins := by
+  have h := arr_run (init p true c) ins [] rfl (full_init p true c) (arr_init p c)
+  rw [List.nil_append, arrivals_eq_accepted] at h
+  have e : decide ((init p true c).phase ≠ Phase.idle) = false := by simp [init]
+  rw [e] at h
+  cases hph : (run (init p true c) ins).phase with
+  | idle => exact ⟨[], by rw [(h.1 hph).2, (h.1 hph).1]; rfl⟩
+  | start => exact ⟨_, h.2.1 hph⟩
+  | relay => exact ⟨_, h.2.2.1 hph⟩
+  | done => exact h.2.2.2 hph
+
+/-- three server replies and a client message buffered behind one pending hook are handled 1,2,3 - not 3,2,1 -/
+example : hookMsgs (run (init .tcp true true) [.start, .hookDone none, .data .client [0], .data .server [1],
+    .data .server [2], .data .server [3], .hookDone none, .hookDone none, .hookDone none, .hookDone none]).trace =
+    [⟨true, [0]⟩, ⟨false, [1]⟩, ⟨false, [2]⟩, ⟨false, [3]⟩] := by decide
 
 /-! ### the hypotheses are satisfiable and the model is not constant -/
 
